@@ -212,6 +212,7 @@ def run_case(case, stats):
                     continue
                 raise Violation("call-raised", f"{type(e).__name__}: {str(e)[:200]}; {label}; base {fmt(base, leaves)}; op {final[0]}", sig=exc_sig(e), opts=label)
             walk_or_raise(res, f"{final[0]} with {label} on {fmt(base, leaves)} [{root}]", full)
+            check_noops(res, f"{final[0]} with {label} on {fmt(base, leaves)}")
             stats.c["trees_walked"] += 1
         cls = f"opt/S=E{S}/{final[0]}" + ("/restricted-fn" if restricted_in(full) else "")
         stats.mark_nontrivial(codec.digest(case), lambda: describe(case), cls=cls)
